@@ -928,7 +928,8 @@ package go9p
 
 // Fid table primitives. The table is the map conn.fidpool; a fid's reference count is guarded by the fid's mutex.
 //@ func (*Conn).FidNew(conn, fidno) (fid)
-//@   property C04 C05 C06
+//@   opt lockcheck
+//@   property C04 C05 C06 C19
 //@   requires conn != nil && conn.fidpool != nil && !held(conn)
 //@   ensures  old(inmap(conn.fidpool, fidno)) ==> fid == nil && conn.fidpool[fidno] == old(conn.fidpool[fidno]) && inmap(conn.fidpool, fidno)
 //@   ensures  !old(inmap(conn.fidpool, fidno)) ==> fid != nil && fresh(fid) && fid.fid == fidno && fid.refcount == 1 && fid.Fconn == conn
@@ -937,13 +938,15 @@ package go9p
 //@   assigns  mapof(conn.fidpool), fresh
 
 //@ func (*SrvFid).IncRef(fid)
-//@   property C04 C06
+//@   opt lockcheck
+//@   property C04 C06 C19
 //@   requires fid != nil && !held(fid)
 //@   ensures  fid.refcount == wrap64s(old(fid.refcount) + 1)
 //@   assigns  fid.refcount
 
 //@ func (*Conn).FidGet(conn, fidno) (fid)
-//@   property C04 C05 C06
+//@   opt lockcheck
+//@   property C04 C05 C06 C19
 //@   requires conn != nil && !held(conn)
 //@   requires forall k int :: inmap(conn.fidpool, k) ==> conn.fidpool[k] != nil && !held(conn.fidpool[k])
 //@   ensures  !old(inmap(conn.fidpool, fidno)) ==> fid == nil
@@ -990,13 +993,15 @@ package go9p
 //@   assigns  everything
 
 //@ func (*SrvReq).Respond(req)
-//@   property C03 C06 C07
+//@   opt lockcheck
+//@   property C03 C06 C07 C19
 //@   requires reqwf(req) && nolocks()
 //@   at call((*SrvReq).Respond) assume arg0 != nil ==> reqwf(arg0)
 //@   assigns  everything
 
 //@ func (*Srv).version(srv, req)
-//@   property C12 C06 C05
+//@   opt lockcheck
+//@   property C12 C06 C05 C19
 //@   requires srv != nil && reqwf(req) && req.Conn.Srv == srv && nolocks()
 //@   ghost nans int = 0
 //@   at call((*SrvReq).RespondError) ghost nans := nans + 1
@@ -1094,7 +1099,8 @@ package go9p
 //@   ensures  nfwd + nans == 1
 
 //@ func (*SrvReq).Process(req)
-//@   property C04 C05 C06
+//@   opt lockcheck
+//@   property C04 C05 C06 C19
 //@   requires reqwf(req) && poolok(req.Conn) && nolocks() && len(req.Rc.Buf) >= req.Conn.Msize
 //@   at call((*Srv).walk) requires [fid] old(inmap(req.Conn.fidpool, req.Tc.Fid)) && req.Fid == old(req.Conn.fidpool[req.Tc.Fid])
 //@   at call((*Srv).open) requires [fid] old(inmap(req.Conn.fidpool, req.Tc.Fid)) && req.Fid == old(req.Conn.fidpool[req.Tc.Fid])
@@ -1516,7 +1522,8 @@ package go9p
 //@   assigns  fresh
 
 //@ func (*SrvReq).process(req)
-//@   property C07 C06 C03
+//@   opt lockcheck
+//@   property C07 C06 C03 C19
 //@   requires reqwf(req) && poolok(req.Conn) && nolocks() && len(req.Rc.Buf) >= req.Conn.Msize
 //@   at call((*SrvReq).Process) requires [notflushed] flushed == false
 //@   assigns  everything
@@ -1524,7 +1531,8 @@ package go9p
 //@ pure unread(conn, buf, pos, rd) = forall k int :: 0 <= k && k < pos ==> buf[k] == instream(conn)[rd - pos + k]
 
 //@ func (*Conn).recv(conn)
-//@   property C13 C12 C06 C03
+//@   opt lockcheck
+//@   property C13 C12 C06 C03 C19
 //@   requires connok(conn) && poolok(conn) && nolocks() && conn.conn != nil && conn.Msize <= 268435455
 //@   ghost rd int = 0
 //@   ghost nf int = 0
@@ -1557,7 +1565,8 @@ package go9p
 //@   assigns  fresh
 
 //@ func (*Conn).send(conn)
-//@   property C03 C06 C12
+//@   opt lockcheck
+//@   property C03 C06 C12 C19
 //@   requires connok(conn) && nolocks() && conn.conn != nil
 //@   at select(*)#1 ensures ret0 == 1 ==> ret3 != nil && reqwf(ret3) && ret3.Conn == conn && len(ret3.Rc.Pkt) >= 7 && len(ret3.Rc.Pkt) <= len(ret3.Rc.Buf) && len(ret3.Rc.Buf) <= conn.Msize
 //@   at call(SetTag) requires [tag] arg1 == req.Tc.Tag && arg0 == req.Rc
@@ -1582,7 +1591,8 @@ package go9p
 // every request slot (Fid, Afid, Newfid) holds one more while the request is in flight.
 
 //@ func (*SrvFid).DecRef(fid)
-//@   property C04 C06 C11
+//@   opt lockcheck
+//@   property C04 C06 C11 C19
 //@   requires fid != nil && !held(fid) && fid.Fconn != nil && !held(fid.Fconn) && fid.Fconn.Srv != nil && fid.refcount > -9223372036854775807
 //@   ghost ndestroy int = 0
 //@   at call(SrvFidOps.FidDestroy) requires [last] arg1 == fid && old(fid.refcount) <= 1 && !inmap(fid.Fconn.fidpool, fid.fid) && ndestroy == 0
@@ -1678,11 +1688,12 @@ package go9p
 //@ iface StatsOps.statsUnregister(op)
 //@   assigns  nothing
 //@ iface SrvFidOps.FidDestroy(op, fid)
-//@   opt preserve M.uint32.p.SrvFid.dom M.uint32.p.SrvFid.val
+//@   opt preserve M.uint32.p.SrvFid.dom M.uint32.p.SrvFid.val E.p.SrvFid
 //@   assigns  everything
 
 //@ func (*Conn).close(conn)
-//@   property C11 C06
+//@   opt lockcheck
+//@   property C11 C06 C19
 //@   requires conn != nil && conn.Srv != nil && nolocks() && poolok(conn)
 //@   ghost nclosed int = 0
 //@   at call(ConnOps.ConnClosed) requires [once] nclosed == 0 && arg1 == conn
@@ -1691,7 +1702,11 @@ package go9p
 //@   ensures  implements(old(conn.Srv.ops), "ConnOps") ==> nclosed == 1
 //@   ensures  nclosed <= 1
 //@   loop 1
-//@     invariant conn != nil && nolocks() && nclosed <= 1 && (implements(old(conn.Srv.ops), "ConnOps") ==> nclosed == 1) && poolok(conn)
+//@     invariant conn != nil && heldonly(conn) && nclosed <= 1 && (implements(old(conn.Srv.ops), "ConnOps") ==> nclosed == 1) && poolok(conn)
+//@     invariant forall k int :: 0 <= k && k < len(fids) ==> fids[k] != nil
+//@   loop 2
+//@     invariant conn != nil && nolocks() && nclosed <= 1 && (implements(old(conn.Srv.ops), "ConnOps") ==> nclosed == 1) && -1 <= rangeindex
+//@     invariant forall k int :: 0 <= k && k < len(fids) ==> fids[k] != nil
 
 //@ func (*Srv).Start(srv, ops) (ok)
 //@   property C12 C06
@@ -1700,7 +1715,106 @@ package go9p
 //@   ensures  ok <==> implements(ops, "SrvReqOps")
 
 //@ func (*Srv).NewConn(srv, c)
-//@   property C12 C06 C11
+//@   opt lockcheck
+//@   property C12 C06 C11 C19
 //@   requires srv != nil && c != nil && srv.Msize >= 24 && srv.Upool != nil && implements(srv.ops, "SrvReqOps") && nolocks() && srv.Maxpend >= 0 && srv.Msize <= 268435455
 //@   at call(net.Conn.RemoteAddr) ensures ret != nil
 //@   at go((*Conn).recv) requires [negotiable] arg0.Msize == srv.Msize && arg0.Dotu == srv.Dotu && arg0.Srv == srv
+
+// ---------------------------------------------------------------------------
+// C19: lock discipline. Fields reachable from several goroutines and the mutex that guards them;
+// in functions marked `opt lockcheck` every access needs the mutex of that object in the held-set
+// (or the object is still unpublished), and no mutex may be held across a call into unknown code
+// or a channel operation.
+//@ guarded Conn.fidpool by Conn
+//@ guarded Conn.reqs by Conn
+//@ guarded Conn.nreqs by Conn
+//@ guarded Conn.tsz by Conn
+//@ guarded Conn.rsz by Conn
+//@ guarded Conn.npend by Conn
+//@ guarded Conn.maxpend by Conn
+//@ guarded SrvReq.status by SrvReq
+//@ guarded SrvFid.refcount by SrvFid
+// (SrvReq.next/prev/flushreq are guarded by the connection lock only while the request is linked from conn.reqs;
+//  that ownership transfer is not expressible in the held-set discipline and is not checked)
+//@ guarded Srv.conns by Srv
+//@ guarded Clnt.reqfirst by Clnt
+//@ guarded Clnt.reqlast by Clnt
+//@ guarded Clnt.err by Clnt
+
+// ---------------------------------------------------------------------------
+// Client (C09, C10, C13 client side)
+
+//@ immutable Pool.low by NewPool
+//@ immutable Pool.high by NewPool
+//@ immutable Clnt.tagpool by NewClnt
+//@ immutable Clnt.conn by NewClnt
+//@ immutable Req.Clnt by (*Clnt).ReqAlloc (*Tag).reqAlloc
+//@ immutable Req.tag by (*Clnt).ReqAlloc (*Tag).reqAlloc
+
+//@ func (*Pool).Put(p, id)
+//@   property C09 C06
+//@   requires p != nil && p.low <= id && id <= p.high
+//@   assigns  nothing
+
+//@ func (*Pool).Get(p) (id)
+//@   property C09
+//@   trusted the pool channel holds exactly the free ids, each within [low, high) (filled by NewPool, refilled by Put)
+//@   requires p != nil
+//@   ensures  p.low <= id && id <= p.high
+//@   assigns  nothing
+
+//@ func NewPool(low, high) (p)
+//@   property C09 C06
+//@   requires low <= high && high - low + 1 <= 2147483647
+//@   ensures  p != nil && fresh(p) && p.low == low && p.high == high
+//@   loop 1
+//@     invariant low <= i && i <= high
+
+//@ func (*Clnt).Rpcnb(clnt, r) (err)
+//@   property C09 C10 C19
+//@   opt lockcheck
+//@   requires clnt != nil && r != nil && r.Tc != nil && len(r.Tc.Pkt) >= 7 && nolocks()
+//@   at call(SetTag) requires [tag] arg1 == ite(r.Tc.Type == 100, 65535, r.tag)
+//@   at send(clnt.reqout) requires [sticky] old(clnt.err) == nil
+//@   at send(clnt.reqout) requires [queued] clnt.reqlast == r && r.prev == old(clnt.reqlast) && (old(clnt.reqlast) == nil ==> clnt.reqfirst == r)
+//@   ensures  old(clnt.err) != nil ==> err == old(clnt.err) && clnt.reqlast == old(clnt.reqlast) && clnt.reqfirst == old(clnt.reqfirst)
+
+//@ func (*Clnt).Unmount(clnt)
+//@   property C10 C19
+//@   opt lockcheck
+//@   requires clnt != nil && clnt.conn != nil && nolocks()
+//@   ensures  clnt.err != nil
+
+//@ func (*Clnt).recv(clnt)
+//@   property C10 C09 C13 C06 C19
+//@   opt lockcheck
+//@   requires clnt != nil && clnt.conn != nil && nolocks() && clnts != nil && clnt.Msize >= 24 && clnt.Msize <= 268435455
+//@   ghost rd int = 0
+//@   at call(net.Conn.Read) requires [room] true
+//@   at call(net.Conn.Read) requires [delivered] pos <= 4 || pos < u32le(buf, 0)
+//@   at call(net.Conn.Read) ensures 0 <= ret0 && ret0 <= len(arg1) && forall k int :: 0 <= k && k < ret0 ==> arg1[k] == instream(clnt)[rd + k]
+//@   at call(net.Conn.Read) after rd := rd + ret0
+//@   at call(Unpack) requires [complete] 4 < pos && u32le(buf, 0) <= pos && pos <= len(buf)
+//@   at call(Unpack) requires [stream] forall k int :: 0 <= k && k < pos ==> buf[k] == instream(clnt)[rd - pos + k]
+//@   at send(r.Done)#1 requires [own] r.Rc == fc && fc != nil && r.Tc.Tag == fc.Tag
+//@   at send(r.Done)#1 requires [errmap] r.Tc.Type != 106 ==> (r.Rc.Type == 107 ==> r.Err != nil) && (r.Rc.Type != r.Tc.Type + 1 && r.Rc.Type != 107 ==> r.Err != nil)
+//@   at send(r.Done)#2 requires [failed] r.Err != nil
+//@   loop 1
+//@     invariant clnt != nil && clnt.conn != nil && nolocks() && 0 <= pos && pos <= len(buf) && clnts != nil
+//@     invariant pos <= 4 || pos < u32le(buf, 0)
+//@     invariant forall k int :: 0 <= k && k < pos ==> buf[k] == instream(clnt)[rd - pos + k]
+//@   loop 2
+//@     invariant clnt != nil && clnt.conn != nil && nolocks() && 0 <= pos && pos <= len(buf) && clnts != nil
+//@     invariant forall k int :: 0 <= k && k < pos ==> buf[k] == instream(clnt)[rd - pos + k]
+//@   loop 3
+//@     invariant clnt != nil && clnt.conn != nil && heldonly(clnt) && fc != nil && 0 <= pos && pos <= len(buf) && fcsize == u32le(buf, 0) && 7 <= fcsize && fcsize <= pos && clnts != nil
+//@     invariant forall k int :: 0 <= k && k < pos ==> buf[k] == instream(clnt)[rd - pos + k]
+//@   loop 4
+//@     invariant clnt != nil && nolocks() && err != nil && clnts != nil
+
+//@ func (*Clnt).logFcall(clnt, fc)
+//@   property C06
+//@   trusted debug logging copies its argument; it does not modify client state
+//@   requires clnt != nil && fc != nil
+//@   assigns  fresh
